@@ -2,6 +2,7 @@ package impl
 
 import (
 	"bytes"
+	"encoding/json"
 	"fmt"
 	"strconv"
 	"strings"
@@ -39,6 +40,13 @@ func pathOf(err error) string {
 }
 
 func runF(t []string) string {
+	if len(t) == 5 && t[2] == "history" {
+		st, ok := ParseTree(t[1])
+		if !ok {
+			return "bad-op"
+		}
+		return fieldHistory(st, t[3], t[4])
+	}
 	if len(t) != 4 {
 		return "bad-op"
 	}
@@ -197,4 +205,79 @@ func unpackMany(st *Tree, op, arg string) string {
 		}
 	}
 	return out
+}
+
+// FieldWriters: the ways a value gets into a primitive field (the last one is a no-op zero value)
+var FieldWriters = []string{"setvalue", "setbytes", "unpack", "json", "marshal-field", "marshal-string", "marshal-bytes", "marshal-zero"}
+
+// WriteThrough puts the value of src (which holds v) into f through the named writer; false = not applicable / refused
+func WriteThrough(f, src field.Field, v *Tree, how string) bool {
+	switch how {
+	case "setvalue":
+		return SetValue(f, v)
+	case "setbytes":
+		b, err := src.Bytes()
+		return err == nil && f.SetBytes(b) == nil
+	case "unpack":
+		w, err := src.Pack()
+		if err != nil {
+			return false
+		}
+		_, err = f.Unpack(w)
+		return err == nil
+	case "json":
+		js, err := json.Marshal(src)
+		return err == nil && json.Unmarshal(js, f) == nil
+	case "marshal-field":
+		return f.Marshal(src) == nil
+	case "marshal-string":
+		s, err := src.String()
+		return err == nil && f.Marshal(s) == nil
+	case "marshal-bytes":
+		b, err := src.Bytes()
+		return err == nil && f.Marshal(b) == nil
+	case "marshal-zero":
+		var zs string
+		return f.Marshal(zs) == nil || f.Marshal(&zs) == nil
+	}
+	return false
+}
+
+// fieldHistory: `F <spec> history <w1>:<v1> <w2>:<v2>` — two writes to one field object with a look at it
+// in between, then Pack. "n/a" when a writer does not apply to the field kind.
+func fieldHistory(st *Tree, a1, a2 string) string {
+	parse := func(a string) (string, *Tree, bool) {
+		w, vs, ok := strings.Cut(a, ":")
+		if !ok {
+			return "", nil, false
+		}
+		v, ok := ParseTree(vs)
+		return w, v, ok
+	}
+	w1, v1, ok1 := parse(a1)
+	w2, v2, ok2 := parse(a2)
+	if !ok1 || !ok2 {
+		return "bad-op"
+	}
+	s1, o1 := FieldOfTree(st)
+	s2, o2 := FieldOfTree(st)
+	f, o3 := FieldOfTree(st)
+	if !o1 || !o2 || !o3 || !SetValue(s1, v1) || !SetValue(s2, v2) {
+		return "bad-op"
+	}
+	if !WriteThrough(f, s1, v1, w1) {
+		return "n/a"
+	}
+	_, _ = f.String()
+	_, _ = f.Bytes()
+	_, _ = json.Marshal(f)
+	_, _ = f.Pack()
+	if !WriteThrough(f, s2, v2, w2) {
+		return "n/a"
+	}
+	out, err := f.Pack()
+	if err != nil {
+		return "err"
+	}
+	return "ok " + Hex(out)
 }
